@@ -55,3 +55,29 @@ Print Assumptions c09_maxage_seconds.
 Theorem c09_store_ttl : forall cfg, manager_save_ttl cfg = c_expire_ns cfg.
 Proof. reflexivity. Qed.
 Print Assumptions c09_store_ttl.
+
+(* ---- providers that cannot refresh (Model/Lifetime.v): the proxy re-stamps the credential every
+   cookie-refresh, so the signed timestamp alone would never end the session.  With the expiry the
+   login gives the session (redeemCode's fallback: login + cookie-expire when the provider tells
+   none), whatever the sequence of requests and validation answers, no request later than
+   login + cookie-expire + cookie-refresh is honoured. *)
+From V.Model Require Import Lifetime.
+From V.Proofs Require Import LifetimeProofs.
+
+Theorem c09_nonrefreshing_total_lifetime : forall refresh expire t0 pc reqs,
+  0 <= refresh -> 0 < expire ->
+  (match pc with Some c => c <= t0 | None => True end) ->
+  let s0 := redeem_fallbacks t0 expire pc None in
+  forall pre t v rest s1 s2,
+    reqs = pre ++ (t, v) :: rest ->
+    run_nonrefreshing refresh expire s0 pre = Some s1 ->
+    request_nonrefreshing refresh expire s1 t v = Some s2 ->
+    t <= t0 + expire + refresh.
+Proof. exact nonrefreshing_total_lifetime. Qed.
+Print Assumptions c09_nonrefreshing_total_lifetime.
+
+Theorem c09_redeem_fallbacks : forall now expire pc pe,
+  l_created (redeem_fallbacks now expire pc pe) = match pc with Some c => c | None => now end /\
+  l_expires (redeem_fallbacks now expire pc pe) = Some (match pe with Some e => e | None => now + expire end).
+Proof. exact redeem_fallbacks_spec. Qed.
+Print Assumptions c09_redeem_fallbacks.
